@@ -278,6 +278,35 @@ func scaleUploads(sysName string, n int, seed int64) ([]wEvent, error) {
 	for _, max := range []int{1, 2, 3, 5} {
 		s.w.walkUploads(Op{}, "bkt1", "mix", "", max)
 	}
+	// ... and the same after one of them, then another, has been aborted (exactly that one must be gone)
+	var mix []int
+	for i, e := range live {
+		if toBytes(e.K) == "mix" {
+			mix = append(mix, i)
+		}
+	}
+	for _, victim := range []int{2, 0, len(mix) - 3} { // (positions among the remaining ones)
+		if victim >= len(mix) {
+			continue
+		}
+		idx := mix[victim]
+		r := newReq("DELETE", "/bkt1/mix")
+		r.Query.Set("uploadId", live[idx].ID)
+		if o := s.x.Serve(r); o.Status != 204 {
+			return nil, fmt.Errorf("abort mix/%s: %d %s", live[idx].ID, o.Status, o.ErrCode())
+		}
+		live = append(append([]wEntry{}, live[:idx]...), live[idx+1:]...)
+		mix = nil
+		for i, e := range live {
+			if toBytes(e.K) == "mix" {
+				mix = append(mix, i)
+			}
+		}
+		s.w.liveOverride = live
+		for _, max := range []int{1, 2, 1000} {
+			s.w.walkUploads(Op{}, "bkt1", "mix", "", max)
+		}
+	}
 	return s.w.out, nil
 }
 
